@@ -28,6 +28,9 @@ func main() {
 		"node-affinity terms) or a batch of 2-5 pods, Solve at 1, 4 and 16 workers, then TruncateInstanceTypes + ToNodeClaim. " +
 		"S also runs batches against weighted NodePools WITH cpu limits (small arm64 + large amd64 types, pods pinned to an architecture, most needing a NodeClaim of their own, limits at k*small / large / large+small-1 ...): " +
 		"the feasibility of each pool for a pod is judged under the limit that truly remains (spec.limits minus the largest type each EARLIER NodeClaim of the pass can still launch, recomputed from the Results). " +
+		"Coverage-guided additions: NodePools of another provider (unmanaged), Ready pools whose instance types fail to resolve (generic error, UnevaluatedNodePoolError, empty list), worlds without any eligible pool (ErrNodePoolsNotFound), " +
+		"memory limits, startupTaints, price/capacity overlays (with the ToNodeClaim annotation oracle), offerings with CapacityOverride, DaemonSets (overhead, selector, host port), pods with memory requests, Pending phase, host ports, Exists tolerations, " +
+		"unbound PVCs with zonal StorageClasses, options MinValuesPolicy=BestEffort / PreferencePolicy=Ignore / ReservedCapacity gate off, and batches against a reservation of capacity 1-2 judged under the capacity that truly remains. " +
 		"P, T and S additionally re-run on the SAME *InstanceType objects after a first use (Allocatable/AllocatableOfferingsList/fits precompute) and an in-place change of " +
 		"Offering.Available (cheapest compatible offering of about half of the types becomes unavailable, some unavailable offerings come back): ranking and truncation are judged by the CURRENT availability. " +
 		"non-trivial = the sort moved an element / the cut drops a type / the pod got a pool that is not first in the order or was deferred; distinct by full input"
